@@ -101,6 +101,10 @@ impl<'a> LTr<'a> {
                     if n == "None" {
                         return Ok(("none".into(), LTy::Unknown));
                     }
+                    if n == "DateTimeRangeError" {
+                        // a unit structure of the vocabulary
+                        return Ok(("Rs.DateTimeRangeError.mk".into(), LTy::Ext("Rs.DateTimeRangeError".into())));
+                    }
                 }
                 if segs.len() >= 2 && segs[segs.len() - 2] == "path" && segs[segs.len() - 1] == "MAIN_SEPARATOR" {
                     // `std::path::MAIN_SEPARATOR` (Unix host)
@@ -207,6 +211,21 @@ impl<'a> LTr<'a> {
                     }
                     return Ok((v, (**inner).clone()));
                 }
+                if let (LTy::Res(inner, e), LTy::Res(_, fe)) = (&ty, &self.sig.ret) {
+                    // `res?` in a function returning a `Result` with the SAME error type (`From` is the identity)
+                    if e != fe {
+                        return Err("`?` that converts the error type".into());
+                    }
+                    if self.closure {
+                        return Err("`?` inside a loop body".into());
+                    }
+                    let (v, x, err) = (self.fresh(), self.fresh(), self.fresh());
+                    let ex = self.exit(&format!("some (Except.error {err})"));
+                    self.emit(format!("let {v} ← match {res} with"));
+                    self.emit(format!("  | .ok {x} => pure {x}"));
+                    self.emit(format!("  | .error {err} => {ex}"));
+                    return Ok((v, (**inner).clone()));
+                }
                 let inner = match ty {
                     LTy::Io(t) => *t,
                     _ => return Err("`?` on a value that is not an io::Result".into()),
@@ -303,6 +322,9 @@ impl<'a> LTr<'a> {
             self.self_ty.clone()
         } else if let Some(st) = self.lreg.structs.get(&n) {
             LTy::Adt(n.clone(), st.params.iter().map(|_| LTy::Unknown).collect())
+        } else if self.reg.structs.contains(&n) {
+            // a structure of the main translation
+            LTy::Adt(n.clone(), vec![])
         } else {
             return Err(format!("struct literal of {n}"));
         };
@@ -783,6 +805,16 @@ impl<'a> LTr<'a> {
                     if segs[0] == "Err" {
                         let (v, _) = self.expr(&c.args[0])?;
                         return Ok(format!("Rs.IoRes.err {v}"));
+                    }
+                }
+                if segs.len() == 1 && c.args.len() == 1 && self.is_res() {
+                    if segs[0] == "Ok" {
+                        let (v, _) = self.expr(&c.args[0])?;
+                        return Ok(format!("(Except.ok {v})"));
+                    }
+                    if segs[0] == "Err" {
+                        let (v, _) = self.expr(&c.args[0])?;
+                        return Ok(format!("(Except.error {v})"));
                     }
                 }
             }
